@@ -154,6 +154,30 @@ func throughHelper(v ssa.Value) []ssa.Value {
 		return []ssa.Value{v}
 	}
 	cal := staticCallee(&call.Call)
+	if prm, isP := call.Call.Value.(*ssa.Parameter); isP && cal == nil && curCtx != nil && prm.Parent() != nil && curCtx.inModule(prm.Parent()) {
+		// g.v = f(g.v) inside replace(f func(old T) T): what the literals handed to replace at its call sites return
+		if _, isTuple := call.Type().(*types.Tuple); !isTuple {
+			idx := paramIndex(prm)
+			var out []ssa.Value
+			sites := callSitesOf(curCtx, origin(prm.Parent()))
+			for _, site := range sites {
+				if idx < 0 || idx >= len(site.Call.Args) {
+					return []ssa.Value{v}
+				}
+				lit := resolveFuncValue(site.Call.Args[idx], 0)
+				if lit == nil || lit.Blocks == nil {
+					return []ssa.Value{v}
+				}
+				for _, r := range returnedBy(lit, 0) {
+					out = append(out, resolveVal(r))
+				}
+			}
+			if len(sites) > 0 && len(out) > 0 {
+				return out
+			}
+		}
+		return []ssa.Value{v}
+	}
 	if cal == nil || cal.Blocks == nil {
 		return []ssa.Value{v}
 	}
